@@ -126,6 +126,7 @@ OBLIGATIONS['C16'] = [
     ('proofs::label_int_order', 'kani'),
 ]
 OBLIGATIONS['C18'] = [
+    ('iana::CwtClaimName::*', 'body'), ('registry_proofs::registry_CwtClaimName', 'kani'),
     ('cwt::ClaimsSet::from_cbor_value', 'body'), ('cwt::ClaimsSet::to_cbor_value', 'body'), ('cwt::Timestamp::from_cbor_value', 'body'), ('cwt::Timestamp::to_cbor_value', 'body'),
     ('cwt::lemma_claims_*', 'lemma'), ('vroundtrip_cwt::lemma_claims_fixed_point', 'lemma'), ('vroundtrip_cwt::lemma_claims_res_deterministic', 'lemma'),
     ('context::PartyInfo::from_cbor_value', 'body'), ('context::PartyInfo::to_cbor_value', 'body'),
@@ -134,6 +135,7 @@ OBLIGATIONS['C18'] = [
     ('common::RegisteredLabelWithPrivate::from_cbor_value', 'body'), ('header::ProtectedHeader::from_cbor_bstr', 'body'),
 ]
 OBLIGATIONS['C10'] = [
+    ('iana::KeyType::*', 'body'), ('iana::KeyOperation::*', 'body'), ('iana::Algorithm::*', 'body'), ('registry_proofs::registry_KeyType', 'kani'), ('registry_proofs::registry_KeyOperation', 'kani'), ('registry_proofs::registry_Algorithm', 'kani'),
     ('key::CoseKey::from_cbor_value', 'body'), ('key::CoseKeySet::from_cbor_value', 'body'), ('key::CoseKey::to_cbor_value', 'body'), ('key::CoseKeySet::to_cbor_value', 'body'),
     ('common::Label::from_cbor_value', 'body'), ('common::RegisteredLabel::from_cbor_value', 'body'), ('common::RegisteredLabelWithPrivate::from_cbor_value', 'body'),
     ('common::lemma_label_obeys_cmp', 'lemma'), ('common::lemma_reglabel_obeys_cmp', 'lemma'),
@@ -224,6 +226,7 @@ OBLIGATIONS['C07'] = [
     ('vroundtrip::*', 'lemma'), ('vroundtrip_cwt::*', 'lemma'),
 ]
 OBLIGATIONS['C08'] = [
+    ('iana::Algorithm::*', 'body'), ('iana::HeaderParameter::*', 'body'), ('iana::CoapContentFormat::*', 'body'), ('registry_proofs::registry_Algorithm', 'kani'), ('registry_proofs::registry_HeaderParameter', 'kani'), ('registry_proofs::registry_CoapContentFormat', 'kani'),
     ('header::Header::from_cbor_value_nested', 'body'), ('header::Header::from_cbor_value', 'body'),
     ('header::lemma_hdr_inv_init', 'lemma'), ('header::lemma_hdr_inv_step', 'lemma'), ('header::lemma_hdr_final', 'lemma'), ('header::lemma_iv_both', 'lemma'), ('header::lemma_absent_fields', 'lemma'),
     ('sign::CoseSignature::from_cbor_value_nested', 'body'), ('header::ProtectedHeader::from_cbor_bstr_nested', 'body'), ('header::ProtectedHeader::from_cbor_bstr', 'body'),
@@ -241,10 +244,13 @@ MEASUREMENTS = {'C01': ['c01-measure']}
 # changed tree), and as a labelled bounded extra in the thorough tier.  They do not decide anything on the unchanged tree.
 PROBES = {
     'C02': ['structures', 'headers'], 'C03': ['structures'], 'C04': ['structures'], 'C05': ['structures'], 'C06': ['structures'],
-    'C08': ['headers'], 'C12': ['headers'], 'C09': ['framing', 'headers'], 'C13': ['framing'], 'C14': ['framing'],
+    'C08': ['headers'], 'C12': ['headers', 'keys', 'claims'], 'C09': ['framing', 'headers'], 'C13': ['framing'], 'C14': ['framing'],
     'C15': ['integers'], 'C16': ['order'], 'C20': ['order'],
-    'C10': ['keys'], 'C18': ['claims', 'integers'], 'C19': ['builders'], 'C07': ['roundtrip'], 'C11': ['roundtrip'], 'C01': ['roundtrip', 'framing'],
+    'C10': ['keys'], 'C18': ['claims', 'integers'], 'C19': ['builders'], 'C07': ['roundtrip'], 'C11': ['roundtrip'], 'C01': ['roundtrip', 'framing', 'headers', 'keys', 'claims', 'integers', 'structures', 'builders', 'order'],
 }
+
+for _p in ('C02', 'C07'):
+    OBLIGATIONS[_p] += [('header::Header::is_empty', 'body'), ('header::ProtectedHeader::is_empty', 'body')]
 
 # properties about panics / termination only: postcondition-only failures of functions NOT matching these patterns do not count
 SAFETY_ONLY = {'C01': ('*from_cbor_*', '*::from_slice', '*::from_tagged_slice', '*read_to_value', '*try_as_*')}
